@@ -5,9 +5,9 @@ from fractions import Fraction
 
 from sa.report import Cx
 from sa.walker import WalkOptions
-from sa.terms import (Sym, Attr, Sub, App, Num, Const, Fresh, TupleT, CompInfo, AIs, f_and, f_not, implies, mul, term_symbols)
+from sa.terms import (Sym, Attr, Sub, App, Num, Const, Fresh, TupleT, CompInfo, AIs, FTrue, f_and, f_not, implies, mul, term_symbols)
 from .common import CORE, BATCH, check_atomic, strip_versions
-from .batchcommon import built_list_ok, partial_binding, check_driver_loop, check_no_swallow, arms
+from .batchcommon import built_list_ok, partial_binding, check_driver_loop, check_no_swallow, arms, result_pipeline
 
 PID = 'C15'
 EXPLANATION = (
@@ -55,15 +55,18 @@ def _append_discipline(cx, fn, p, lp, item_of, res_list):
                         f"results (empty record lists) would be dropped")
     return None
 
+# the work list is recognised as the call ParameterList.build(); its body is C14's subject
+NOINL = frozenset({BATCH + 'ParameterList.build'})
+
 
 def run(cx: Cx):
     fn = cx.fn(BR)
     runf = cx.fn(RUN)
     params = Sym('parameters')
-    paths = [p for p in cx.walker.paths(fn, WalkOptions(unroll=2, callee_raises=False)) if p.end != 'raise']
+    paths = [p for p in cx.walker.paths(fn, WalkOptions(unroll=2, callee_raises=False, no_inline=NOINL)) if p.end != 'raise']
     serial, pool = arms(cx, fn, paths)
-    cx.floor('batch_run serial-arm paths', len(serial), 2)
-    cx.floor('batch_run pool-arm paths', len(pool), 2)
+    cx.floor('batch_run serial-arm paths', len(serial), 1)
+    cx.floor('batch_run pool-arm paths', len(pool), 1)
     reported = set()
 
     def viol(rule, missing, msg, where, **kw):
@@ -72,41 +75,28 @@ def run(cx: Cx):
             cx.violation(rule, fn.qualname, missing, msg, where=where, **kw)
 
     facts = {'serial': set(), 'pool': set()}
+    from .common import _loop_stage_table
+    table = _loop_stage_table(paths)
     for arm, plist in (('serial', serial), ('pool', pool)):
         for p in plist:
-            rm = [e.data.get('value') for e in p.events if e.kind == 'call' and e.data.get('callee_name') == 'functools.partial']
-            rm = [e.data.get('result') for e in p.events if e.kind == 'call' and e.data.get('callee_name') == 'functools.partial']
             ret = p.last.data.get('value') if p.end == 'return' else None
-            if not (isinstance(ret, Fresh) and ret.kind in ('list', 'call:list') and not ret.items):
+            if not isinstance(strip_versions(ret), Fresh):
                 viol('R-FRESH', 'returns-the-fresh-results-list', f"batch_run returns {ret!r}, not the result list allocated in this call",
                      cx.where(fn, p.last.line if p.last else None))
                 continue
-            loops = [e for e in p.events if e.kind == 'loop']
-            if len(loops) != 1 or len(rm) != 1:
-                viol('R-SIB', f"{arm}-arm-shape", f"batch_run ({arm} arm): expected one partial and one loop over the work list, found "
-                     f"{len(rm)} partial(s), {len(loops)} loop(s)", cx.where(fn))
+            r = result_pipeline(cx, fn, paths, p, ret, table)
+            if isinstance(r, str):
+                viol('R-SIB', f"{arm}-arm-keeps-every-result-once", f"batch_run ({arm} arm): {r}", cx.where(fn, p.last.line), path=p.lines())
                 continue
-            RM = rm[0]
-            lp = loops[0]
-            it = lp.data.get('iter')
-            if arm == 'serial':
-                W = it
-                def item_of(it_ev, seg, RM=RM):
-                    v = it_ev.data['info'].get('var')
-                    calls = [e for e in seg if e.kind == 'call' and e.data.get('via') == 'partial' and e.data.get('args') == (v,)]
-                    return calls[0].data.get('result') if len(calls) == 1 else None
-            else:
-                if not (isinstance(it, App) and it.fn in ('.imap_unordered', '.imap', '.map') and len(it.args) == 3):
-                    viol('R-SIB', 'pool-arm-maps-the-partial-over-the-work-list', f"batch_run (pool arm) iterates {it!r}: not "
-                         f"pool.imap_unordered/imap/map(run_model, work_list)", cx.where(fn, lp.line))
-                    continue
-                if it.args[1] != RM:
-                    viol('R-SIB', 'both-arms-use-the-same-callable', f"the pool arm maps {it.args[1]!r}, the serial arm calls {RM!r}",
-                         cx.where(fn, lp.line))
-                    continue
-                W = it.args[2]
-                def item_of(it_ev, seg):
-                    return it_ev.data['info'].get('var')
+            RM, W = r['F'], r['W']
+            if arm == 'pool' and r['via'] == 'serial':
+                viol('R-SIB', 'pool-arm-maps-the-partial-over-the-work-list', f"batch_run (pool arm) does not run the work list through "
+                     f"pool.imap_unordered/imap/map(run_model, work_list)", cx.where(fn, p.last.line))
+                continue
+            if r['keep'] != 'not-none':
+                viol('R-SIB', f"{arm}-arm-keeps-every-result-once", f"batch_run ({arm} arm): a None result is appended", cx.where(fn, p.last.line),
+                     path=p.lines())
+                continue
             # work list
             rep = Sym('repetitions')
             okW = False
@@ -116,17 +106,13 @@ def run(cx: Cx):
                 (mon, c), = mons.items()
                 if c == 1 and len(mon) == 2 and rep in mon:
                     sk = [m for m in mon if m != rep]
-                    okW = bool(sk) and built_list_ok(sk[0], params)
+                    okW = bool(sk) and built_list_ok(sk[0], params, p.cond)
             if not okW:
                 viol('R-GUARD', f"work-list-is-product-times-repetitions",
                      f"batch_run ({arm} arm) consumes {W!r}; the work list must be the built product list repeated `repetitions` times",
-                     cx.where(fn, lp.line))
+                     cx.where(fn, p.last.line))
                 continue
-            err = _append_discipline(cx, fn, p, lp, item_of, ret)
-            if err:
-                viol('R-SIB', f"{arm}-arm-keeps-every-result-once", f"batch_run ({arm} arm): {err}", cx.where(fn, lp.line), path=p.lines())
-                continue
-            facts[arm].add((repr(RM), repr(W), ret.site))
+            facts[arm].add((repr(RM), repr(W)))
             # partial binding
             pb = partial_binding(cx, fn, RM, Sym('<item>'))
             if pb is None or pb[0].qualname != runf.qualname:
@@ -152,7 +138,8 @@ def run(cx: Cx):
     check_driver_loop(cx, runf, ['model_cls', 'kwargs'])
     coll = Sym('collectors')
     seen = set()
-    for p in cx.walker.paths(runf, WalkOptions(unroll=0, callee_raises=False)):
+    wpaths = cx.walker.paths(runf, WalkOptions(unroll=1, callee_raises=False))
+    for p in wpaths:
         if p.end == 'raise':
             continue
         v = p.last.data.get('value') if p.end == 'return' else Const(None)
@@ -173,11 +160,11 @@ def run(cx: Cx):
         else:
             seen.add('many')
             good = False
-            if isinstance(v, Fresh) and v.kind == 'dictcomp' and isinstance(v.detail, CompInfo) and len(v.detail.gens) == 1:
-                tgt, src, conds = v.detail.gens[0]
-                if src == coll and not conds and v.detail.key == Attr(Sub(systems, tgt), 'id') and v.detail.elt == Attr(Sub(systems, tgt), 'records'):
-                    good = True
-                if src == coll and not conds and v.detail.key == tgt and v.detail.elt == Attr(Sub(systems, tgt), 'records'):
+            from .common import list_facts
+            lf = list_facts(wpaths, p, v, lambda s: strip_versions(s) == coll) if isinstance(v, Fresh) else None
+            if lf is not None and lf.ok and lf.key is not None and lf.base_var is not None and lf.cond == FTrue:
+                tgt = lf.base_var
+                if lf.key in (Attr(Sub(systems, tgt), 'id'), tgt) and lf.elem == Attr(Sub(systems, tgt), 'records'):
                     good = True
             if not good:
                 cx.violation('R-GUARD', runf.qualname, 'returns-own-records-per-collector',
